@@ -316,6 +316,8 @@ def run(ck, tier):
     ck.guard(r4_dispatch, ck, cx)
     ck.guard(r6_constructor_keeps_zero, ck, cx)
     ck.guard(r7_register_keeps_tables, ck, cx)
+    from .c02 import r6_bit_helpers_fresh
+    ck.guard(r6_bit_helpers_fresh, ck, cx, 'R8')
     from .c02 import r5_no_shared_default_state
     ck.guard(r5_no_shared_default_state, ck, cx, 'R5')
     ck.assume('the arithmetic inside pack_bitstring / unpack_bitstring (LSB-first packing) and struct itself are in the trusted base; the rules prove every bit field goes through them')
